@@ -2,11 +2,8 @@
 #ifndef HPRE_H
 #define HPRE_H
 #ifdef NATIVE_REPLAY
-#include <stdio.h>
-#include <stdlib.h>
-#include <string.h>
-#define __CPROVER_assert(c, m) do { if (!(c)) { printf("ASSERT FAIL: %s\n", m); ir_native_fail = 1; } } while (0)
-#define __CPROVER_assume(c) do { if (!(c)) { printf("ASSUME FALSE (%s:%d): replayed inputs leave the assumed envelope\n", __FILE__, __LINE__); exit(3); } } while (0)
+#define __CPROVER_assert(c, m) do { if (!(c)) { __builtin_printf("ASSERT FAIL: %s\n", m); ir_native_fail = 1; } } while (0)
+#define __CPROVER_assume(c) do { if (!(c)) { __builtin_printf("ASSUME FALSE (%s:%d): replayed inputs leave the assumed envelope\n", __FILE__, __LINE__); __builtin_exit(3); } } while (0)
 #define __CPROVER_atomic_begin() ((void)0)
 #define __CPROVER_atomic_end() ((void)0)
 static int ir_native_fail;
@@ -16,9 +13,9 @@ static int ir_native_fail;
 static const struct { const char *n; long i, j; unsigned long long v; } IR_RV[] = { { 0, 0, 0, 0 } };
 #endif
 static unsigned long long ir_replay_val(const char *n, long i, long j) {
-  if (strncmp(n, "in_", 3)) { const char *p = strstr(n, "in_"); if (p) n = p; }
-  char base[96]; size_t k = 0; while (n[k] && n[k] != '[' && n[k] != ' ' && k < 95) { base[k] = n[k]; k++; } base[k] = 0;
-  for (int r = 0; IR_RV[r].n; r++) if (!strcmp(IR_RV[r].n, base) && IR_RV[r].i == i && IR_RV[r].j == j) return IR_RV[r].v;
+  if (__builtin_strncmp(n, "in_", 3)) { const char *p = __builtin_strstr(n, "in_"); if (p) n = p; }
+  char base[96]; unsigned long k = 0; while (n[k] && n[k] != '[' && n[k] != ' ' && k < 95) { base[k] = n[k]; k++; } base[k] = 0;
+  for (int r = 0; IR_RV[r].n; r++) if (!__builtin_strcmp(IR_RV[r].n, base) && IR_RV[r].i == i && IR_RV[r].j == j) return IR_RV[r].v;
   return 0; }
 #define SYM(v)        ((v) = (__typeof__(v))ir_replay_val(#v, -1, -1))
 #define SYM_AT(a, i)  ((a)[i] = (__typeof__((a)[i]))ir_replay_val(#a, (long)(i), -1))
@@ -28,6 +25,83 @@ unsigned long long nondet_u64(void);
 #define SYM(v)        ((v) = (__typeof__(v))nondet_u64())
 #define SYM_AT(a, i)  ((a)[i] = (__typeof__((a)[i]))nondet_u64())
 #define SYM_AT2(a, i, j)  ((a)[i][j] = (__typeof__((a)[i][j]))nondet_u64())
+#endif
+#ifdef NATIVE_REPLAY
+/* the model defines its own versions of libc entry points (as environment stubs); natively they must not replace the C library's */
+#define malloc irn_malloc
+#define calloc irn_calloc
+#define realloc irn_realloc
+#define free irn_free
+#define strlen irn_strlen
+#define strdup irn_strdup
+#define memcmp irn_memcmp
+#define strcmp irn_strcmp
+#define strncmp irn_strncmp
+#define strchr irn_strchr
+#define memchr irn_memchr
+#define syscall irn_syscall
+#define clock_gettime irn_clock_gettime
+#define sched_yield irn_sched_yield
+#define read irn_read
+#define write irn_write
+#define close irn_close
+#define open irn_open
+#define pipe irn_pipe
+#define fcntl irn_fcntl
+#define fstat irn_fstat
+#define lseek irn_lseek
+#define pread irn_pread
+#define pwrite irn_pwrite
+#define sem_init irn_sem_init
+#define sem_post irn_sem_post
+#define sem_wait irn_sem_wait
+#define sem_timedwait irn_sem_timedwait
+#define sem_destroy irn_sem_destroy
+#define sem_trywait irn_sem_trywait
+#define pthread_create irn_pthread_create
+#define pthread_self irn_pthread_self
+#define pthread_key_create irn_pthread_key_create
+#define pthread_setspecific irn_pthread_setspecific
+#define pthread_getspecific irn_pthread_getspecific
+#define pthread_attr_init irn_pthread_attr_init
+#define pthread_attr_destroy irn_pthread_attr_destroy
+#define pthread_attr_setdetachstate irn_pthread_attr_setdetachstate
+#define pthread_sigmask irn_pthread_sigmask
+#define pthread_detach irn_pthread_detach
+#define getpid irn_getpid
+#define gettid irn_gettid
+#define usleep irn_usleep
+#define nanosleep irn_nanosleep
+#define abort irn_abort
+#define getenv irn_getenv
+#define sysconf irn_sysconf
+#define epoll_create1 irn_epoll_create1
+#define epoll_ctl irn_epoll_ctl
+#define epoll_wait irn_epoll_wait
+#define eventfd irn_eventfd
+#define timerfd_create irn_timerfd_create
+#define timerfd_settime irn_timerfd_settime
+#define sscanf irn_sscanf
+#define snprintf irn_snprintf
+#define vsnprintf irn_vsnprintf
+#define strlcpy irn_strlcpy
+#define strtoul irn_strtoul
+#define dlsym irn_dlsym
+#define mmap irn_mmap
+#define munmap irn_munmap
+#define madvise irn_madvise
+#define posix_memalign irn_posix_memalign
+#define raise irn_raise
+#define kill irn_kill
+#define sigemptyset irn_sigemptyset
+#define sigaddset irn_sigaddset
+#define sigfillset irn_sigfillset
+#define sigdelset irn_sigdelset
+#define qsort irn_qsort
+#define getprogname irn_getprogname
+#define fprintf irn_fprintf
+#define dprintf irn_dprintf
+#define vfprintf irn_vfprintf
 #endif
 #define ASSERT(c, m) __CPROVER_assert(c, m)
 #define ASSUME(c) __CPROVER_assume(c)
